@@ -28,7 +28,19 @@ def design_mc(ctx):
                         invariants=["ProjIsPrefixOpt", "FinalIsOpt", "WitnessOK"])
     r = tlc.model_check("MC_PedMECDP", cfg=cfg, timeout=3000)
     r["what"] = "PedMECDP (column DP with forward projection, as in pedigreedptable.cpp) computes PedMEC!OptCost and a witness"
-    return [r]
+    out = [r]
+    cfg = tlc.write_cfg(os.path.join(ctx.workdir, "ck.cfg"), spec="Spec", consts={"MaxN": 70 if q else 200, "Off": 0},
+                        invariants=["NeverReadsMissingColumn", "MemoryBound"])
+    r = tlc.model_check("Checkpoint", cfg=cfg)
+    r["what"] = "Checkpoint: sqrt-spaced storage / recomputation schedule of compute_table never needs a missing column, for every n"
+    out.append(r)
+    cfg = tlc.write_cfg(os.path.join(ctx.workdir, "ckneg.cfg"), spec="Spec", consts={"MaxN": 30, "Off": 1},
+                        invariants=["NeverReadsMissingColumn"])
+    neg = tlc.model_check("Checkpoint", cfg=cfg)
+    if neg["ok"] or "NeverReadsMissingColumn is violated" not in neg["out"]:
+        raise tlc.TlcError("negative control failed: a shifted deletion rule must break NeverReadsMissingColumn")
+    ctx.notes["checkpoint_negative_control"] = "shifted deletion rule violates NeverReadsMissingColumn (as expected)"
+    return out
 
 
 # ----------------------------------------------------------------------------------------------
